@@ -366,7 +366,7 @@ type reflHelper struct {
 // parameter that call the int getter/setter with constant names.
 func (c *Ctx) reflHelpers() []reflHelper {
 	var out []reflHelper
-	iVal, setIVal := c.lzFunc("iVal"), c.lzFunc("setIVal")
+	iVal, setIVal := c.roles().getter, c.roles().setter // found by role: f(reflect.Value, name) int / f(reflect.Value, name, int)
 	for _, fn := range c.allFuncs {
 		if fn.Pkg != c.lz || fn.Parent() != nil || fn.Signature.Recv() != nil {
 			continue
@@ -406,7 +406,7 @@ func (c *Ctx) reflHelpers() []reflHelper {
 }
 
 func ruleReflectNames(c *Ctx) {
-	iVal, setIVal := c.lzFunc("iVal"), c.lzFunc("setIVal")
+	iVal, setIVal := c.roles().getter, c.roles().setter // found by role: f(reflect.Value, name) int / f(reflect.Value, name, int)
 	hs := c.reflHelpers()
 	if len(hs) == 0 {
 		c.fail("reflect-helpers", token.NoPos, "no reflective config helpers found")
@@ -865,7 +865,6 @@ func ruleInitOrder(c *Ctx) {
 	}
 }
 
-
 // bufConfigAgreement: see ruleInitOrder. Applies to every partial configuration
 // (BufConfig, hashConfig, dhConfig, bucketConfig, …) that init extracts from the
 // parser configuration and hands to the dictionary/buffer initialiser.
@@ -879,7 +878,8 @@ func (c *Ctx) bufConfigAgreement(p *Parser, init *ssa.Function, setDef *ssa.Call
 		if _, isS := n.Underlying().(*types.Struct); !isS {
 			return false
 		}
-		return strings.HasSuffix(strings.ToLower(n.Obj().Name()), "config") && !types.Identical(n, p.Cfg)
+		// a (partial) configuration: a struct with SetDefaults and Verify (role, not name)
+		return c.method(n, "SetDefaults") != nil && c.method(n, "Verify") != nil && !types.Identical(n, p.Cfg)
 	}
 	nArgs := 0
 	for _, b := range init.Blocks {
